@@ -116,6 +116,8 @@ def _build(pos, leaf_kind, root_ctype=False):
     every configuration on the way also has `ok = IntField(default=0)` (declared first)."""
     import cincoconfig as cc
     leaves, _ = _leaf_table()
+    leaves = dict(leaves)
+    leaves.update(_dict_key_leaf_table())
 
     def level(i):
         sch = cc.Schema()
@@ -216,6 +218,207 @@ def _encode(fmt, tree):
 
 
 # ------------------------------------------------------------------------------------------------ one case
+# ------------------------------------------------------------------------------------------------ unusual dict keys
+def _dict_key_leaf_table():
+    """typed dicts by key field: kind -> (factory, "")"""
+    import cincoconfig as cc
+    return {
+        "dict-any-int": (lambda: cc.DictField(cc.AnyField(), cc.IntField(), default=dict), ""),
+        "dict-nokey-int": (lambda: cc.DictField(value_field=cc.IntField(), default=dict), ""),
+        "dict-intkey-int": (lambda: cc.DictField(cc.IntField(), cc.IntField(), default=dict), ""),
+        "dict-floatkey-int": (lambda: cc.DictField(cc.FloatField(), cc.IntField(), default=dict), ""),
+        "dict-boolkey-int": (lambda: cc.DictField(cc.BoolField(), cc.IntField(), default=dict), ""),
+        "dict-byteskey-int": (lambda: cc.DictField(cc.BytesField(), cc.IntField(), default=dict), ""),
+        "dict-strkey-int": (lambda: cc.DictField(cc.StringField(), cc.IntField(), default=dict), ""),
+    }
+
+
+DICT_KEYS = {"tuple": (0, 1), "tuple1": ("a",), "tuple0": (), "int": 7, "neg-int": -3, "float": 1.5, "bool": True,
+             "none": None, "bytes": b"k", "str-%s": "a%sb", "str-%": "100%", "str-]": "a]b", "str-.": "a.b",
+             "str-[": "a[b", "str-empty": ""}
+_STR_KEYS = {"str-%s", "str-%", "str-]", "str-.", "str-[", "str-empty"}
+# keys each key field accepts (from the field classes' documentation; only used to label a case as value- or
+# key-rejected and to decide which of the two modes is worth running; the expected path does not depend on it)
+DICT_KEY_ACCEPTS = {
+    "dict-any-int": set(DICT_KEYS), "dict-nokey-int": set(DICT_KEYS),
+    "dict-intkey-int": {"int", "neg-int", "float", "none"},
+    "dict-floatkey-int": {"int", "neg-int", "float", "none"},
+    "dict-boolkey-int": {"int", "neg-int", "float", "bool", "none"},
+    "dict-byteskey-int": _STR_KEYS | {"bytes", "none"},
+    "dict-strkey-int": _STR_KEYS | {"none"},
+}
+DICT_ROUTES = ("setattr", "dotted", "ctor", "load_tree", "item", "update", "update-pairs", "ior", "setdefault")
+DICT_POSITIONS = [[], [("schema", "a")], [("schema", "a"), ("schema", "b")]]
+
+
+def _blank_out(expected):
+    return {"expected_paths": expected, "exc_type": None, "is_validation_error": None, "ref_path": None, "text": None}
+
+
+def _observe(out, run):
+    """run the operation under test, record the rejection (if any) in out"""
+    import cincoconfig as cc
+    try:
+        r = run()
+    except Exception as exc:  # the observation under test
+        out["status"] = "rejected"
+        out["exc_type"] = type(exc).__name__
+        out["is_validation_error"] = isinstance(exc, cc.ValidationError) and isinstance(exc, ValueError)
+        if out["is_validation_error"]:
+            try:
+                out["ref_path"] = exc.ref_path
+            except Exception as exc2:
+                out["ref_path"] = "<ref_path raised %s>" % type(exc2).__name__
+            try:
+                out["text"] = str(exc)
+            except Exception as exc2:
+                out["text"] = "<str raised %s>" % type(exc2).__name__
+        else:
+            out["text"] = str(exc)[:200]
+        return out
+    out["status"] = "skipped" if r == "skipped" else "accepted"
+    return out
+
+
+def _execute_dict_key(spec):
+    """spec: kind 'dict-key', pos, leaf (dict kind), key (name in DICT_KEYS), mode 'value-rejected' (bad value under the
+    key) | 'key-rejected' (good value, key the key field refuses), route in DICT_ROUTES"""
+    pos = [tuple(x) for x in spec["pos"]]
+    key = DICT_KEYS[spec["key"]]
+    value = "x" if spec["mode"] == "value-rejected" else 1
+    route = spec["route"]
+    root = _build(pos, spec["leaf"])
+    # the path text of the unchanged library, "%s[%s]" % (path, key): the key rendered with str()
+    expected = [_path(pos) + "[" + str(key) + "]"]
+    entry = {key: value}
+
+    def run():
+        if route in ("ctor", "load_tree"):
+            tree = _tree(pos, {LEAF: entry})
+            if route == "ctor":
+                root(**tree)
+            else:
+                root().load_tree(tree)
+            return
+        try:
+            cfg = root()
+            owner = _navigate(cfg, pos)
+            proxy = getattr(owner, LEAF)
+        except Exception:
+            return "skipped"
+        if route == "setattr":
+            setattr(owner, LEAF, entry)
+        elif route == "dotted":
+            _dotted_set(cfg, pos, LEAF, entry)
+        elif route == "item":
+            proxy[key] = value
+        elif route == "update":
+            proxy.update(entry)
+        elif route == "update-pairs":
+            proxy.update([(key, value)])
+        elif route == "ior":
+            proxy |= entry
+        elif route == "setdefault":
+            proxy.setdefault(key, value)
+        else:
+            raise ValueError(route)
+
+    return _observe(_blank_out(expected), run)
+
+
+# ------------------------------------------------------------------------------------------------ list item positions
+LIST_HISTORIES = {
+    "none": [],
+    "insert-front": [["insert", 0]],
+    "insert-middle": [["insert", 1]],
+    "append": [["append"]],
+    "pop-front": [["pop", 0]],
+    "pop-middle": [["pop", 1]],
+    "pop-last": [["pop", -1]],
+    "del-front": [["del", 0]],
+    "insert-front-pop-last": [["insert", 0], ["pop", -1]],
+    "pop-front-insert-middle-append": [["pop", 0], ["insert", 1], ["append"]],
+    "insert-front-twice-pop-middle": [["insert", 0], ["insert", 0], ["pop", 2]],
+    "reverse": [["reverse"]],
+    "pop-all-but-one": [["pop", 0], ["pop", 0]],
+}
+LIST_POSITIONS = [
+    ("list", [("list", "items", 0)]),
+    ("schema/list", [("schema", "a"), ("list", "items", 0)]),
+    ("tlist", [("tlist", "titems", 0)]),
+    ("list/schema", [("list", "items", 0), ("schema", "a")]),
+    ("tlist/schema", [("tlist", "titems", 0), ("schema", "a")]),
+]
+LIST_ROUTES = ("attr", "dotted", "load_tree")
+
+
+def _execute_list_index(spec):
+    """spec: kind 'list-index', pos (exactly one list segment), history, target 'first'|'middle'|'last', route,
+    equal_items.  Three items, then the history of insert/pop/... on the list proxy, then a rejected value for the int
+    leaf of the item that is NOW at the target index"""
+    pos = [tuple(x) for x in spec["pos"]]
+    li = [i for i, seg in enumerate(pos) if seg[0] in ("list", "tlist")][0]
+    equal = bool(spec.get("equal_items"))
+    root = _build(pos, "int")
+    state = {}
+
+    def prepare():
+        cfg = root()
+        owner = _navigate(cfg, pos[:li])
+        setattr(owner, pos[li][1], [({} if equal else {"ok": j + 1}) for j in range(3)])
+        lst = getattr(owner, pos[li][1])
+        if spec.get("probe_before"):  # every item is rejected (and its path looked at) once before the history
+            for item in list(lst):
+                try:
+                    setattr(_navigate(item, pos[li + 1:]), LEAF, "zz top")
+                except Exception as exc:
+                    getattr(exc, "ref_path", None)
+        n = 10
+        for op in LIST_HISTORIES[spec["history"]]:
+            n += 1
+            new = {} if equal else {"ok": n}
+            if op[0] == "insert":
+                lst.insert(op[1], new)
+            elif op[0] == "append":
+                lst.append(new)
+            elif op[0] == "pop":
+                lst.pop(op[1])
+            elif op[0] == "del":
+                del lst[op[1]]
+            elif op[0] == "reverse":
+                lst.reverse()
+        idx = {"first": 0, "middle": len(lst) // 2, "last": len(lst) - 1}[spec["target"]]
+        state["idx"] = idx
+        state["item"] = lst[idx]
+        state["cfg"] = cfg
+
+    try:
+        prepare()
+    except Exception:
+        out = _blank_out([])
+        out["status"] = "skipped"
+        return out
+    idx = state["idx"]
+    rest = pos[li + 1:]
+    prefix = _path(pos[:li], leaf=False)
+    parts = [p for p in [prefix] if p] + ["%s[%d]" % (pos[li][1], idx)] + [seg[1] for seg in rest] + [LEAF]
+    expected = [".".join(parts)]
+
+    def run():
+        item = state["item"]
+        route = spec["route"]
+        if route == "attr":
+            setattr(_navigate(item, rest), LEAF, "zz top")
+        elif route == "dotted":
+            item[".".join([seg[1] for seg in rest] + [LEAF])] = "zz top"
+        elif route == "load_tree":
+            item.load_tree(_tree(rest, {LEAF: "zz top"}))
+        else:
+            raise ValueError(route)
+
+    return _observe(_blank_out(expected), run)
+
+
 def _route_class(route):
     if route in ("attr", "dotted"):
         return "assign"
@@ -229,6 +432,10 @@ def _execute(spec):
     route, equal_items, target (index of the container that receives the value, shape cases).
     -> dict(status='skipped'|'accepted'|'rejected', exc_type, is_validation_error, ref_path, text, expected_paths)"""
     import cincoconfig as cc
+    if spec["kind"] == "dict-key":
+        return _execute_dict_key(spec)
+    if spec["kind"] == "list-index":
+        return _execute_list_index(spec)
     pos = [tuple(s) for s in spec["pos"]]
     route = spec["route"]
     value = _values()[spec["value"]]
@@ -325,6 +532,8 @@ def _judge(spec, out):
     if out["status"] != "rejected":
         return []
     route = spec["route"]
+    if spec["kind"] in ("dict-key", "list-index"):
+        return _judge_container(spec, out)
     rc = _route_class(route)
     where = {"attr": "core:Config._set_value", "dotted": "core:Config._set_value", "ctor": "core:Config._set_value",
              "load_tree": "core:Config.load_tree", "attr-after-load": "core:Config._set_value"}.get(
@@ -368,6 +577,35 @@ def _judge(spec, out):
     return fails
 
 
+def _judge_container(spec, out):
+    route = spec["route"]
+    if spec["kind"] == "dict-key":
+        where = {"setattr": "core:Config._set_value", "dotted": "core:Config._set_value", "ctor": "core:Config._set_value",
+                 "load_tree": "core:Config.load_tree", "item": "fields.dict_field:DictProxy.__setitem__",
+                 "update": "fields.dict_field:DictProxy.update", "update-pairs": "fields.dict_field:DictProxy.update",
+                 "ior": "fields.dict_field:DictProxy.__ior__", "setdefault": "fields.dict_field:DictProxy.setdefault"}[route]
+        wk = "dict-key:%s/%s/%s" % (spec["key"], spec["mode"], route)
+        what = "%s key %r (%s) in %s at %s via %s" % (spec["mode"], DICT_KEYS[spec["key"]], spec["key"], spec["leaf"],
+                                                      out["expected_paths"][0], route)
+    else:
+        where = "core:Config.load_tree" if route == "load_tree" else "core:Config._set_value"
+        wk = "list-index:%s%s%s/%s/%s" % (spec["history"], "(equal-items)" if spec.get("equal_items") else "",
+                                          "(rejected-before)" if spec.get("probe_before") else "", spec["target"], route)
+        what = "rejected value for a field of the %s item of %s after history %s via %s" % (
+            spec["target"], spec["posname"], spec["history"], route)
+    if not out["is_validation_error"]:
+        return [(where + "/raise:C15.validation-error-type",
+                 "%s: raised %s (%s), expected cincoconfig.ValidationError" % (what, out["exc_type"], out["text"]), wk)]
+    if out["ref_path"] not in out["expected_paths"]:
+        return [(where + "/raise:C15.ref-path",
+                 "%s: ValidationError.ref_path is %r, expected %r" % (what, out["ref_path"], out["expected_paths"][0]), wk)]
+    if not _text_ok(out["text"], out["ref_path"]):
+        return [("core:ValidationError.__str__/post:C15.text-names-path",
+                 "%s: str(ValidationError) = %r does not start with the reference path %r"
+                 % (what, out["text"], out["ref_path"]), wk)]
+    return []
+
+
 def replay(case):
     with sandbox():
         out = _execute(case)
@@ -385,13 +623,20 @@ def rac(tier="quick", seed=0):
         PID,
         rule="case = (position chain from root, leaf field kind, rejected value, route); schema built per case with the "
              "leaf `f` at that position; non-trivial iff the real library rejected the value (an exception was raised); "
-             "routes whose format cannot carry the value are skipped and not counted",
+             "routes whose format cannot carry the value are skipped and not counted; dict-key case = (position, key "
+             "field kind, key, value- or key-rejected, dict route); list-index case = (position, insert/pop history, "
+             "target index class, route, equal-valued items or not)",
         bound="16 positions (root, root ConfigType, nested schemas to depth 3, config types, lists of schemas / config "
               "types, item index 0/1, list in list) x 26 leaf kinds (every built-in field class, typed list/dict, friendly "
               "names, custom validator, include) x canonical rejected value x 11 routes (attr, dotted, ctor, load_tree, "
               "attr-after-load, loads in 5 formats); 27 malformed values of every JSON/Python type x leaf kinds at 3 "
               "positions (quick: all routes at root, attr/load_tree/json elsewhere); 7 wrong shapes for every container; "
-              "equal-valued list items",
+              "equal-valued list items; typed dicts: 7 key fields (AnyField, none, Int, Float, Bool, Bytes, String) x 15 "
+              "keys (tuple, 1-tuple, empty tuple, int, negative int, float, bool, None, bytes, strs with %s % ] . [ and '') "
+              "x 9 routes (setattr, dotted, ctor, load_tree, d[k]=v, update(dict), update(pairs), |=, setdefault) x 3 "
+              "positions (root, 1 and 2 levels down); lists of schemas / config types: 13 histories of insert/append/pop/"
+              "del/reverse on 3 items x first/middle/last x 3 routes x 5 positions x equal-valued or distinct items x "
+              "with/without a rejection on every item before the history",
         tier=tier, seed=seed)
     leaves, _ = _leaf_table()
     routes_all = ["attr", "dotted", "ctor", "load_tree", "attr-after-load"] + ["loads:" + f for f in FORMATS]
@@ -405,7 +650,7 @@ def rac(tier="quick", seed=0):
         rec.case(key=key, nontrivial=out["status"] == "rejected",
                  sample={"case": {k: spec[k] for k in ("posname", "leaf", "value", "route") if k in spec},
                          "expected_paths": out["expected_paths"], "observed": [out["exc_type"], out["ref_path"]]}
-                 if out["status"] == "rejected" and rec.evaluations % 97 == 0 else None)
+                 if out["status"] == "rejected" and rec.evaluations % 1499 == 0 else None)
         for obligation, what, wk in _judge(spec, out):
             rec.violation(obligation=obligation, what=what, replay=dict(spec), witness_key=wk)
 
@@ -435,6 +680,48 @@ def rac(tier="quick", seed=0):
             for route in routes_all:
                 one({"kind": "leaf", "posname": posname, "pos": [list(s) for s in pos], "leaf": "int", "value": "str",
                      "route": route, "equal_items": True})
+        # (5) typed dicts with unusual keys: bad value under the key / key the key field refuses, every dict route
+        for pos in DICT_POSITIONS:
+            for leaf_kind in _dict_key_leaf_table():
+                for kname in DICT_KEYS:
+                    accepted = kname in DICT_KEY_ACCEPTS[leaf_kind]
+                    mode = "value-rejected" if accepted else "key-rejected"
+                    for route in DICT_ROUTES:
+                        if leaf_kind == "dict-byteskey-int" and (route == "load_tree" or (route == "ctor" and pos)):
+                            # tree routes (a nested constructor keyword is loaded as a tree): keys of a bytes-keyed dict
+                            # are encoded text there, the key as written is not the key of the entry
+                            continue
+                        spec = {"kind": "dict-key", "posname": _posname(pos), "pos": [list(x) for x in pos],
+                                "leaf": leaf_kind, "key": kname, "mode": mode, "route": route}
+                        out = _execute(spec)
+                        if out["status"] == "skipped":
+                            continue
+                        rec.case(key=("dict-key", spec["posname"], leaf_kind, kname, mode, route),
+                                 nontrivial=out["status"] == "rejected",
+                                 sample={"case": spec, "expected_paths": out["expected_paths"],
+                                         "observed": [out["exc_type"], out["ref_path"]]}
+                                 if (leaf_kind, kname, route, len(pos)) == ("dict-any-int", "tuple", "item", 2) else None)
+                        for obligation, what, wk in _judge(spec, out):
+                            rec.violation(obligation=obligation, what=what, replay=dict(spec), witness_key=wk)
+        # (6) configurations in lists after insert/pop histories: the index in the path is the item's current index
+        for posname, pos in LIST_POSITIONS:
+            for history in LIST_HISTORIES:
+                for target in ("first", "middle", "last"):
+                    for route in LIST_ROUTES:
+                        for equal, probe in ((False, False), (True, False), (False, True), (True, True)):
+                            spec = {"kind": "list-index", "posname": posname, "pos": [list(x) for x in pos],
+                                    "history": history, "target": target, "route": route, "equal_items": equal,
+                                    "probe_before": probe}
+                            out = _execute(spec)
+                            if out["status"] == "skipped":
+                                continue
+                            rec.case(key=("list-index", posname, history, target, route, equal, probe),
+                                     nontrivial=out["status"] == "rejected",
+                                     sample={"case": spec, "expected_paths": out["expected_paths"],
+                                             "observed": [out["exc_type"], out["ref_path"]]}
+                                     if (posname, history, target, route, equal, probe) == ("tlist", "insert-front", "middle", "attr", True, True) else None)
+                            for obligation, what, wk in _judge(spec, out):
+                                rec.violation(obligation=obligation, what=what, replay=dict(spec), witness_key=wk)
         # (4) malformed values of every type on every leaf kind
         for posname, pos in POSITIONS:
             if tier == "quick" and posname not in GENERIC_POSITIONS_QUICK:
